@@ -25,10 +25,19 @@ var commutativeCalls = map[string]string{
 	"(" + core.Mod + "/internal/validation.WarningSink).Add": "warning sink sorts by file/line/column/message before rendering (rule M2)",
 }
 
-func ruleMapOrder(c *core.Ctx) {
-	const rule = "M1"
-	c.Rule(rule, "every range over a Go map has an iteration-order-independent effect (commutative body, or collect-then-sort, or constant return)", 10)
+// ruleMapOrderScoped: M1 restricted to the evolution analyser (C06: deterministic verdicts).
+func ruleMapOrderScoped(c *core.Ctx) {
+	mapOrderIn(c, "M1", func(f string) bool { return strings.Contains(f, "/pkg/dsl/evolution") }, 3)
+}
+
+func ruleMapOrder(c *core.Ctx) { mapOrderIn(c, "M1", func(string) bool { return true }, 10) }
+
+func mapOrderIn(c *core.Ctx, rule string, fileOK func(string) bool, min int) {
+	c.Rule(rule, "every range over a Go map has an iteration-order-independent effect (commutative body, or collect-then-sort, or constant return)", min)
 	for _, d := range c.AllDecls() {
+		if !fileOK(c.Fset.Position(d.Pos()).Filename) {
+			continue
+		}
 		p := c.DeclPkg(d)
 		info := p.TypesInfo
 		n := 0
